@@ -111,8 +111,9 @@ static void destroy(int i)
     disown(i);
 }
 
-static const char *W[] = { "alpha", "beta", "gamma", "delta", "a b 'c d' e", "x", "", "http://u:p@h:1/p?q", "k1", "k2", "k3", "longer text with several words in it", "http://:8080/index.html", "//h?q", "proto:p" };
-#define NW 15
+static const char *W[] = { "alpha", "beta", "gamma", "delta", "a b 'c d' e", "x", "", "http://u:p@h:1/p?q", "k1", "k2", "k3", "longer text with several words in it", "http://:8080/index.html", "//h?q", "proto:p",
+                           "   ", "a \"   \" b", "  lead and trail \t" };       /* all blanks; a quoted token that is all blanks; blanks at both ends */
+#define NW 18
 static const char *word(void) { return W[vh_below(NW)]; }
 static const char *label(void) { static const char *L[] = { "k1", "k2", "k3", "k4", "k5", "k6" }; return L[vh_below(6)]; }
 static spif_obj_t new_label(void) { return (spif_obj_t) spif_str_new_from_ptr((spif_charptr_t) label()); }
@@ -128,7 +129,7 @@ static const char *IMPLN[] = { "array", "linked_list", "dlinked_list" };
 /* one program step */
 static void step(void)
 {
-    int op = (int) vh_below(51);
+    int op = (int) vh_below(53);
     int i, j;
     switch (op) {
     case 0: case 1: { const char *w = word(); vh_op("str_new_from_ptr(%s)", vh_qs(w)); own(spif_str_new_from_ptr((spif_charptr_t) w), T_STR, 0); vh_count("create", 1); break; }
@@ -304,6 +305,17 @@ static void step(void)
                               case 4: spif_url_set_port(u, v); break; case 5: spif_url_set_path(u, v); break; default: spif_url_set_query(u, v); break; }
                  if (vh_coin(40)) spif_url_unparse(u);
                  vh_count("url_component_set", 1); } break;
+    /* ---- trimming: a text or buffer that is all blanks ends up empty, and stays a usable object */
+    case 51: if ((i = pick_kind2(T_STR, T_MBUFF)) >= 0) { vh_op("%s_trim(#%d), then append", TN[pool[i].kind], i);
+                 if (pool[i].kind == T_STR) { spif_str_trim(pool[i].p); spif_str_append_from_ptr(pool[i].p, (spif_charptr_t) "+"); }
+                 else { spif_mbuff_trim(pool[i].p); spif_mbuff_append_from_ptr(pool[i].p, (spif_byteptr_t) "+", 1); }
+                 vh_count("trim", 1); } break;
+    /* ---- splicing one value into another so that the receiver has to grow (its old storage must be released, not just replaced) */
+    case 52: if ((i = pick_kind2(T_STR, T_MBUFF)) >= 0) { int kind = pool[i].kind; j = pick_kind(kind);
+                 if (j >= 0) { vh_op("%s_splice(#%d, 0, 0, #%d) x2 -- receiver grows", TN[kind], i, j);
+                     if (kind == T_STR) { spif_str_splice(pool[i].p, 0, 0, pool[j].p); spif_str_splice(pool[i].p, 1, 0, pool[j].p); }
+                     else { spif_mbuff_splice(pool[i].p, 0, 0, pool[j].p); spif_mbuff_splice(pool[i].p, 1, 0, pool[j].p); }
+                     vh_count("splice_growing", 1); } } break;
     case 38: case 39: if (npool > 0) { i = (int) vh_below((uint64_t) npool); vh_op("early delete of #%d (%s)", i, TN[pool[i].kind]); destroy(i); vh_count("early_delete", 1); } break;
     }
 }
